@@ -1,5 +1,6 @@
 SPECIFICATION MCFair
 CONSTANTS Malformed = "ascoded"
+ ApiErr = "ascoded"
  Variant = "none"
  AltForks = {"electra"}
 PROPERTIES Terminates
